@@ -164,10 +164,11 @@ impl<const K: usize> Drop for VArc<K> {
         if old == 1 {
             if self.e.ty.load(SeqCst) != K {
                 violation(format!(
-                    "type-confusion: last reference of {} (type {}) released through handle of type {}",
+                    "type-confusion: last reference of {} (type {}) released through handle of type {}{}",
                     ident(self.e),
                     self.e.ty.load(SeqCst),
-                    K
+                    K,
+                    crate::conc::context()
                 ));
             }
             let p = self.e.drop_panics.load(SeqCst);
